@@ -333,6 +333,7 @@ fn worker_c12(tier: &str, seed: u64) -> ExitCode {
             "operations_by_kind_and_outcome": stats.ops_by_kind_outcome,
             "index_reuses": stats.index_reuses,
             "distinct_tree_shapes_reached": stats.shapes.len(),
+            "event_log_digest_sum": format!("{:016x}", stats.event_digest_sum),
             "max_nodes": stats.max_nodes,
             "histories_per_hour": if wall > 0.0 { (stats.histories as f64 / wall * 3600.0) as u64 } else { 0 },
             "simulated_time": "none: the only clock is the operation counter",
@@ -374,6 +375,30 @@ fn worker_c12(tier: &str, seed: u64) -> ExitCode {
 // ---------------------------------------------------------------------------
 // replay
 // ---------------------------------------------------------------------------
+
+/// Prints the event log of one seeded run (for determinism diffs).
+pub fn trace(id: &str, run_index: u64) -> ExitCode {
+    let seed = env_u64("VERIF_SEED").unwrap_or(DEFAULT_SEED);
+    let rs = run_seed(seed, id, run_index);
+    match id {
+        "C03" | "C04" | "C05" | "C06" => {
+            let r = pwlsim::seeded_history_run_traced(id, rs, true);
+            println!("violations: {:?}", r.violations);
+        }
+        "C11" => {
+            let r = pwlsim::seeded_fault_scenario_traced(rs, tier_of("quick") == "thorough", true);
+            println!("executions: {} violating: {}", r.executions, r.violating.len());
+        }
+        "C12" => {
+            let mut st = ArenaStats::default();
+            let (r, k, _) = arenasim::seeded_run(id, rs, &mut st);
+            println!("k={k} history={:?}", r.history);
+            println!("digest={:016x} violation={:?}", st.event_digest_sum, r.violation);
+        }
+        _ => return ExitCode::from(2),
+    }
+    ExitCode::SUCCESS
+}
 
 pub fn replay_file(path: &str) -> ExitCode {
     let text = match std::fs::read_to_string(path) {
@@ -458,6 +483,7 @@ pub fn finish_replay(property: &str, path: &str, got: Option<Violation>, expecte
 
 fn stats_json(st: &PwlStats) -> Value {
     let mut v = serde_json::to_value(st).unwrap();
+    v["event_digest_sum"] = json!(format!("{:016x}", st.event_digest_sum));
     v["distinct_states_reached"] = json!(st.state_hashes.len());
     v
 }
